@@ -5,13 +5,19 @@ from __future__ import annotations
 import functools
 import tomllib
 
-PATHS = {'uw': ('weather', 'use_weather'), 'sox': ('emissions', 'sox_enabled'), 'nox': ('emissions', 'nox_method')}
+PATHS = {'uw': ('weather', 'use_weather'), 'sox': ('emissions', 'sox_enabled'), 'nox': ('emissions', 'nox_method'), 'wd': ('weather', 'weather_data_dir')}
 _installed = False
 _emit = None
 _depth = 0
 
 
-def norm(v):
+def norm(v, key=None):
+    if key == 'weather_data_dir':
+        # Config.tla values of wd: None, the packaged default directory, another directory
+        if v is None:
+            return 'null'
+        name = str(v).rstrip('/').split('/')[-1]
+        return {'weather': 'wdefault', 'weather_alt': 'walt'}.get(name, 'wother')
     if isinstance(v, bool):
         return 'true' if v else 'false'
     return str(getattr(v, 'value', v)).lower()
@@ -27,7 +33,7 @@ def observe():
     vals = {}
     for p, (sec, key) in PATHS.items():
         try:
-            vals[p] = norm(getattr(getattr(c, sec), key))
+            vals[p] = norm(getattr(getattr(c, sec), key), key)
         except Exception:
             vals[p] = 'unreadable'
     return True, vals
@@ -42,7 +48,7 @@ def layer_of(d) -> dict:
                 if isinstance(sk, str) and sk.lower() == sec and isinstance(sv, dict):
                     for kk, vv in sv.items():
                         if isinstance(kk, str) and kk.lower() == key:
-                            v = norm(vv)
+                            v = norm(vv, key)
         out[p] = v
     return out
 
